@@ -11,7 +11,8 @@ RT = os.path.join(C.VERIF, "tools/harness/roundtrip.py")
 
 
 def run(r):
-    r.cov["rule"] = ("theorems: header written for every released magic x every 32-bit timestamp/size reads back (format spec and load_module's parser); "
+    r.cov["rule"] = ("theorems: header written for every released magic x every 32-bit timestamp/size reads back (format spec and load_module's parser); payload written for every "
+                     "2.0-2.7 and 3.0-3.10 magic x every code-object tree is read back by that version's reader model and by xdis's; "
                      "correspondence: write_bytecode_file header bytes vs model for every table magic; round trip through the REAL target interpreters: sources "
                      "compiled by 2.7, 3.6-3.10, loaded by xdis, written back, and compared by the target's own marshal.loads (code-object == and constant kinds), "
                      "re-read by xdis; 3.11+ targets must raise; non-trivial = a round trip through a real interpreter")
@@ -34,14 +35,37 @@ def run(r):
                      nontrivial=lambda c, o: False)
         targets = [("2.7", C.ORACLES["2.7"]), ("3.6", C.ORACLES["3.6"]), ("3.7", C.ORACLES["3.7"]), ("3.8", C.ORACLES["3.8"]), ("3.9", C.ORACLES["3.9"]),
                    ("3.10", C.ORACLES["3.10"]), ("3.11", C.ORACLES["3.11"]), ("3.13", C.ORACLES["3.13"])]
-        rc, out, err = C.run_py(RT, stdin=json.dumps({"targets": targets}), timeout=900)
+        # corpus files of every version the writer has a layout for (2.0-2.7 via dump_code2, 3.0-3.10 via dump_code3), PyPy included;
+        # the smallest files of each directory in the quick tier
+        import glob
+        corpus = []
+        per_dir = 3 if r.tier == "quick" else 12
+        for dname in sorted(os.listdir(os.path.join(C.REPO, "test"))):
+            if not dname.startswith("bytecode_") or "dropbox" in dname:
+                continue
+            fs = sorted(glob.glob(os.path.join(C.REPO, "test", dname, "*.pyc")), key=lambda f: (os.path.getsize(f), f))
+            fs = [f for f in fs if os.path.getsize(f) < 5000]
+            rnd.shuffle(fs)
+            corpus += sorted(fs[:per_dir])
+        rc, out, err = C.run_py(RT, stdin=json.dumps({"targets": targets, "corpus": corpus, "corpus_root": os.path.join(C.REPO, "test")}), timeout=1500)
         if "@@JSON@@" not in out:
             raise RuntimeError("roundtrip harness failed: " + err[-1500:])
         recs = json.loads(out.split("@@JSON@@")[1])
         for rec in recs:
             r.case(("rt", rec["target"], rec["source"]), nontrivial=True, sample=rec if len(r.cov["samples"]) < 6 else None)
-            r.count("roundtrip:" + rec["target"])
+            r.count("roundtrip:" + rec["target"] + (":" + ".".join(map(str, rec["version"])) if rec["target"] == "corpus" and "version" in rec else ""))
             if "skip" in rec:
+                continue
+            vt = tuple(rec.get("version", ()))
+            if rec["target"] == "corpus":
+                # no interpreter judges these: the writer either raises (a layout it does not have: before 2.0, 3.11+) or writes a file
+                # xdis reads back to the same content; the payload is compared with the writer model below
+                if "write_error" in rec:
+                    if (2, 0) <= vt < (3, 11):
+                        r.violation({"component": "write_bytecode_file", "record": rec, "why": "the writer raised for a version it has a layout for"})
+                elif rec.get("xdis_reread_equal") is not True:
+                    r.violation({"component": "write_bytecode_file / load_module", "record": {k: v for k, v in rec.items() if "payload" not in k and k != "float_reprs"},
+                                 "why": "a corpus file written back is not read by xdis to the same content (the writer emitted a different program instead of raising)"})
                 continue
             new_layout = rec["target"] in ("3.11", "3.12", "3.13")
             if new_layout:
@@ -52,30 +76,47 @@ def run(r):
             if "write_error" in rec:
                 r.violation({"component": "write_bytecode_file", "record": rec, "why": "the writer raised for a version it supports"})
             elif rec.get("target_says") != "1 1":
-                r.violation({"component": "write_bytecode_file", "record": rec,
-                             "why": "the target interpreter loads the written file to a different code object (first flag: ==, second: same constant kinds)"})
+                r.violation({"component": "write_bytecode_file", "record": {k: v for k, v in rec.items() if "payload" not in k and k != "float_reprs"},
+                             "why": "the target interpreter loads the written file to a different code object (first flag: ==, second: every field of every "
+                                    "nested code object incl. filename and line table, constants by type and value)"})
             elif rec.get("xdis_reread_equal") is not True:
-                r.violation({"component": "write_bytecode_file / load_module", "record": rec, "why": "xdis does not read the written file back to the same content"})
-        # the payload writer model (Model.Marsh.dumps with code objects) against what write_bytecode_file wrote: evaluated inside Coq on the
-        # value the reader model reads from the ORIGINAL payload
+                r.violation({"component": "write_bytecode_file / load_module", "record": {k: v for k, v in rec.items() if "payload" not in k and k != "float_reprs"},
+                             "why": "xdis does not read the written file back to the same content"})
+        # the payload writer model (Model.Marsh.dumps / dumps2 with code objects) against what write_bytecode_file wrote: evaluated inside
+        # Coq on the value the reader model reads from the ORIGINAL payload
         lits, owners = [], []
         for rec in recs:
-            if "written_payload" in rec and len(rec["orig_payload"]) < 6000:
+            # PyPy 3.2 stores names and file names as 's' strings, which load_code turns into text and the writer emits as 'u': the reader
+            # model keeps them as bytes, so these payloads are judged by xdis's re-read only
+            if "written_payload" in rec and len(rec["orig_payload"]) < 6000 and "3.2pypy" not in rec["source"]:
                 tbl = "[" + "; ".join(f"({b}, {C.blist(s_)})" for b, s_ in rec["float_reprs"]) + "]"
                 lits.append(f"({rec['magic']}, {tbl}, {C.blist(rec['orig_payload'])}, {C.blist(rec['written_payload'])})")
                 owners.append(rec)
         hdr2 = HEADER + "\nFrom Xdis Require Import Model.Unmarshal Model.UnmarshalObs Model.Marsh Gen.Dispatch Proofs.MarshRoundTrip."
+        wr_term = ("(let rf := (fun b => match zassoc b tbl with Some s => s | None => [] end) in "
+                   "if tuple_geb (magic_version m) [3; 0] then dumps rf (posonly_read (cpy_cfg m)) false v else dumps2 rf (vge (xdis_cfg m) [2; 3]) v)")
+        # byte for byte; when the tree holds a set of two or more members (written in the host's iteration order): same length, and the
+        # reader model reads the written bytes to the same value (sets compared sorted, floats through their repr)
         chk = ("fun c : Z * list (Z * list Z) * list Z * list Z => let '(m, tbl, orig, written) := c in "
-               "match load (xdis_cfg m) orig with Ok (v, _) => zlist_eqb (dumps (fun b => match zassoc b tbl with Some s => s | None => [] end) (posonly_read (cpy_cfg m)) false v) written | Err _ => false end")
+               "match load (xdis_cfg m) orig with Ok (v, _) => has_float_text v || (let w := " + wr_term + " in if has_multi_set v then "
+               "(zlen w =? zlen written) && match load (xdis_cfg m) written with Ok (v', st') => "
+               "let ft := map (fun p : Z * list Z => (snd p, fst p)) tbl in zlist_eqb (obs_pv ft v') (obs_pv ft v) && (zlen (inp st') =? 0) | Err _ => false end "
+               "else zlist_eqb w written) | Err _ => false end")
         bad, errs = C.coq_cases(r.wd, "payload", hdr2, "Z * list (Z * list Z) * list Z * list Z", chk, lits, chunk=6)
         if errs:
             raise RuntimeError(f"payload cases: {errs[0]}")
-        for b in bad[:2]:
+        for b in bad[:3]:
             ow = owners[b]
-            r.violation({"component": "Model.Marsh.dumps (code objects) vs write_bytecode_file payload", "target": ow["target"], "source": ow["source"],
-                         "orig_payload": ow["orig_payload"][:300], "written_payload": ow["written_payload"][:300],
-                         "why": "the bytes written after the header are not what the writer model (over which C13_payload_* are proved) produces for the loaded code object"},
-                        found_input=False)
+            r.violation({"component": "Model.Marsh.dumps / dumps2 (code objects) vs write_bytecode_file payload", "target": ow["target"], "source": ow["source"],
+                         "version": ow.get("version"), "orig_payload": ow["orig_payload"][:300], "written_payload": ow["written_payload"][:300],
+                         "why": "the bytes written after the header are not what the writer model (over which C13_payload_* and C13_payload2_* are proved) produces "
+                                "for the loaded code object; by those theorems the model's bytes are read back to the original by the version's own reader"},
+                        found_input=True)
+        skipped, errs = C.coq_cases(r.wd, "payloadskip", hdr2, "Z * list (Z * list Z) * list Z * list Z",
+                                    "fun c : Z * list (Z * list Z) * list Z * list Z => let '(m, tbl, orig, written) := c in "
+                                    "match load (xdis_cfg m) orig with Ok (v, _) => negb (has_float_text v) | Err _ => true end", lits, chunk=12)
+        r.cov["payloads_with_text_floats_compared_by_value_only"] = [owners[b]["source"] for b in skipped]
+        r.cov["payloads_py2_compared_in_coq"] = sum(1 for o in owners if tuple(o.get("version", (3,))) < (3, 0))
         r.cov["payloads_compared_in_coq"] = len(lits)
         for rec in recs:
             for k in ("orig_payload", "written_payload", "float_reprs"):
@@ -88,5 +129,6 @@ def run(r):
         traceback.print_exc()
         r.violation({"correspondence": "could not be run", "error": repr(e)}, found_input=False, name="C13-correspondence.json")
     r.cov["explanation"] = ("Header and payload are proved for Python 3.0-3.10 targets (payload: CPython's reader model and xdis's own reader return the tree that was written, any nesting). "
-                            "For Python 2 targets (dump_code2) the payload is decided by execution on the real 2.7 only. 'Executing it behaves identically' is taken from code-object "
+                            "For Python 2.0-2.7 targets (dump_code2, Python 2 str/unicode/int/long kinds, 16-bit fields before 2.3) the same two theorems are C13_payload2_*; the writer model is tied "
+                            "to write_bytecode_file byte for byte on files compiled by the real 2.7 (non-ASCII file name and strings, 64-bit ints, longs, unicode) and on corpus files of 2.1-2.7, 3.0-3.10 and PyPy. 'Executing it behaves identically' is taken from code-object "
                             "equality as judged by the real 2.7 and 3.6-3.10 interpreters. 3.11+ is refused by the writer (raises).")
